@@ -38,9 +38,13 @@ def generate(rng, tier, idx, real_set=False):
             p = kit.path + ".s%d" % slot
             ops.append({"op": "dump", "path": p, "slot": slot})
             ops.append({"op": "restart", "path": p, "slot": slot, "via": pick(rng, ["path", "handle", "loads"]), "offset": rng.randint(0, 200)})
-        if rng.random() < 0.5:
+        if rng.random() < 0.4:
             ops.append({"op": "redump_same", "slot": slot, "n": rng.randint(2, 3)})
-    ops.append({"op": "cmp_slots"})
+    # "...or on how often the object was dumped before": in half of the runs the builds are NOT all dumped before the
+    # common mutation, so that slots with and without a dump history are compared afterwards
+    first_cmp = rng.random() < 0.5
+    if first_cmp:
+        ops.append({"op": "cmp_slots"})
     # mutate every slot the same way, compare again
     m = kit.mutation(K, rng)
     if m["op"] != "add":
@@ -49,6 +53,8 @@ def generate(rng, tier, idx, real_set=False):
             if slot:
                 mm["slot"] = slot
             ops.append(mm)
+        ops.append({"op": "cmp_slots"})
+    elif not first_cmp:
         ops.append({"op": "cmp_slots"})
     ops.append({"op": "dump", "path": kit.path})
     cfg = kit.cfg(rng)
